@@ -28,6 +28,13 @@ def lift_const(obj):
     return VConst(obj)
 
 
+def _mark_global(v, qual):
+    """a module-level list/dict lifted from the source is process-wide state: remember where it came from"""
+    if isinstance(v, (VDict, VCList)):
+        v.global_name = qual
+    return v
+
+
 def is_true(t):
     return z3.is_true(z3.simplify(t))
 
@@ -503,7 +510,7 @@ class Engine:
                 # an EMPTY module-level container can only be meant as mutable process-wide state:
                 # an opaque global object (reads are opaque, stores are recorded in the $mutated ghost)
                 return VObj(z3.Const("global_%s_%s" % (m, name), PyObj))
-            return lift_const(cv)
+            return _mark_global(lift_const(cv), "%s.%s" % (m, name))
         raise OutOfSubset("unknown global name %s" % name)
 
     def ev_Tuple(s, n, st, out):
@@ -788,7 +795,7 @@ class Engine:
         if isinstance(v, VExt):
             if v.name in ("mod:defaults",):
                 try:
-                    return [(st, lift_const(s.module_const("defaults", attr)))]
+                    return [(st, _mark_global(lift_const(s.module_const("defaults", attr)), "defaults." + attr))]
                 except OutOfSubset:
                     pass
             return [(st, VExt(v.name + "." + attr))]
